@@ -107,13 +107,19 @@ OCT [0-7]
 }
 
 <STRING>"\\"[0-3]{OCT}?{OCT}? {
-  yylval->f->str += parse_esc_num (yyget_text (yyscanner),
-				   yyget_leng (yyscanner), 1, 8);
+  if (yylval->f->raw)
+    yylval->f->str += yyget_text (yyscanner);
+  else
+    yylval->f->str += parse_esc_num (yyget_text (yyscanner),
+				     yyget_leng (yyscanner), 1, 8);
 }
 
 <STRING>"\\x"{HEX}{HEX} {
-  yylval->f->str += parse_esc_num (yyget_text (yyscanner),
-				   yyget_leng (yyscanner), 2, 16);
+  if (yylval->f->raw)
+    yylval->f->str += yyget_text (yyscanner);
+  else
+    yylval->f->str += parse_esc_num (yyget_text (yyscanner),
+				     yyget_leng (yyscanner), 2, 16);
 }
 
 <STRING>"\\"(.|[\n]) {
